@@ -33,7 +33,14 @@ type vNatsState struct {
 
 var vNats = map[*nats.Conn]*vNatsState{}
 
-func vConn() *nats.Conn {
+// vConn returns a connection to a fresh in-process bus.
+func vConn() *nats.Conn { return vConnOpt(false) }
+
+// vConnNoEcho is like vConn but the connection does not receive its own
+// publishes (as the sync client's connections are configured).
+func vConnNoEcho() *nats.Conn { return vConnOpt(true) }
+
+func vConnOpt(noEcho bool) *nats.Conn {
 	opts := &natsserver.Options{Host: "127.0.0.1", Port: -1, NoLog: true, NoSigs: true}
 	s, err := natsserver.NewServer(opts)
 	if err != nil {
@@ -43,7 +50,11 @@ func vConn() *nats.Conn {
 	if !s.ReadyForConnections(5 * time.Second) {
 		panic(vDesync{"nats server not ready"})
 	}
-	nc, err := nats.Connect(s.ClientURL())
+	var copts []nats.Option
+	if noEcho {
+		copts = append(copts, nats.NoEcho())
+	}
+	nc, err := nats.Connect(s.ClientURL(), copts...)
 	if err != nil {
 		panic(vDesync{"nats connect: " + err.Error()})
 	}
@@ -108,10 +119,13 @@ func vEvents(nc *nats.Conn) []vEvent {
 // vServe subscribes handler to subject (a real subscription natively; the
 // engine dispatches matching requests and publishes to it synchronously).
 func vServe(nc *nats.Conn, subject string, handler func(*nats.Msg)) {
-	if _, err := nc.Subscribe(subject, handler); err != nil {
+	// served from a separate server-side connection so that connections
+	// without echo still reach the handler
+	st := vNats[nc]
+	if _, err := st.inj.Subscribe(subject, handler); err != nil {
 		panic(vDesync{"subscribe: " + err.Error()})
 	}
-	_ = nc.Flush()
+	_ = st.inj.Flush()
 }
 
 // vPublish injects a message from another party and waits until the bus has
